@@ -5,7 +5,7 @@ import numpy as np
 from hypothesis import strategies as st
 
 from vlib import gens
-from vlib.core import Prop, Sub, Violation, calling, check
+from vlib.core import Prop, Sub, Violation, calling, check, unchanged
 from vlib.oracles import hull_dist, hull_weight_margin, lp_dist, lp_margin
 from vlib.systems import proportional_variant, Sys, matrix_system, target_rows
 
@@ -20,16 +20,26 @@ def _dreye():
 
 
 def _call_membership(sv: Sys, B, entry, relative=True):
-    """returns the boolean decisions; entry in {'estimator', 'function'}"""
+    """returns the boolean decisions; entry in {'estimator', 'function'}.  The query is made twice, first on the first row alone:
+    it must not change the caller's arrays or the estimator's registered state, so the second answer is the one of a fresh call."""
     B = np.asarray(B, dtype=float)
     if entry == "estimator":
         with calling("ReceptorEstimator.in_hull"):
             est = sv.make_estimator()
-            return np.asarray(est.in_hull(B, relative=relative))
+            with unchanged("membership", estimator=est, B=B):
+                first = np.asarray(est.in_hull(B[:1], relative=relative))
+                out = np.asarray(est.in_hull(B, relative=relative))
+        check(bool(first[0]) == bool(out[0]), "membership:second-query-differs", "the same target gets another answer in a second query on the same estimator")
+        return out
     from dreye.api.convex import in_hull_from_A
 
     with calling("in_hull_from_A"):
-        return np.asarray(in_hull_from_A(B, sv.A, **sv.kwargs()))
+        kw = sv.kwargs()
+        with unchanged("membership", B=B, A=sv.A, **{k: v for k, v in kw.items() if isinstance(v, np.ndarray)}):
+            first = np.asarray(in_hull_from_A(B[:1], sv.A, **kw))
+            out = np.asarray(in_hull_from_A(B, sv.A, **kw))
+    check(bool(first[0]) == bool(out[0]), "membership:second-query-differs", "the same target gets another answer when the same argument arrays are used again")
+    return out
 
 
 def _geo_margin(sv: Sys, t):
